@@ -24,6 +24,7 @@
 //!   R18 arm abstraction (per function, listed arms kept): other arms of the same `match` -> arbitrary result + arbitrary change of listed places
 //!   R19 `opt.or_else(|| B)` / `unwrap_or_else(|| B)` / `ok_or_else(|| E)` -> `match`
 //!   R20 `M.entry(K).or_default().push(V)` (push_back / insert; or_insert_with(Vec::new) ..) -> `vx_entry_or_default_push(&mut M, K, V)` (prelude/entry.vrs)
+//!   R3  `opt.is_some_and(|x| B)` -> `match`      R21 `a |= b` / `a &= b` on bools -> `{ let t = b; a = a || t; }`
 //!   R11 reference patterns in `for` / closure parameters / `Some(&x)` -> bind + deref
 //!   RS  pinned statement replacement   (request: replace_stmt)
 //!   RE  pinned expression replacement  (request: replace_expr)
@@ -54,6 +55,9 @@ struct Anchor {
     id: u32,
     pos: String, // before | after
     text: String,
+    /// further accepted forms of the anchored statement (any one may match)
+    #[serde(default)]
+    alts: Vec<String>,
     #[serde(default)]
     nth: Option<usize>,
 }
@@ -726,6 +730,48 @@ impl<'a> VisitMut for Rw<'a> {
                 }
             }
         }
+        if self.enabled("R21") {
+            // `a |= b` / `a &= b` (Verus: no non-short-circuit bool operators) -> `{ let t = b; a = a || t; }` (b is evaluated first, once)
+            let mut repl: Option<Expr> = None;
+            if let Expr::Binary(b) = e {
+                let which = match b.op {
+                    BinOp::BitOrAssign(_) => Some(true),
+                    BinOp::BitAndAssign(_) => Some(false),
+                    _ => None,
+                };
+                if let Some(is_or) = which {
+                    let l = &b.left;
+                    let r = &b.right;
+                    let t = self.fresh("b");
+                    repl = Some(if is_or { parse_quote!({ let #t: bool = #r; #l = #l || #t; }) } else { parse_quote!({ let #t: bool = #r; #l = #l && #t; }) });
+                }
+            }
+            if let Some(r) = repl {
+                *e = r;
+                self.bump("R21.bool_assign_op");
+                return;
+            }
+        }
+        if self.enabled("R3") {
+            // `opt.is_some_and(|x| B)` -> `match opt { Some(x) => B, None => false }`
+            let mut repl: Option<Expr> = None;
+            if let Expr::MethodCall(mc) = e {
+                if mc.method == "is_some_and" && mc.args.len() == 1 {
+                    if let Some(c) = closure_of(&mc.args[0]) {
+                        if let Some(p) = closure_single_pat(&c) {
+                            let recv = &mc.receiver;
+                            let b = &c.body;
+                            repl = Some(parse_quote!(match #recv { Some(#p) => #b, None => false }));
+                        }
+                    }
+                }
+            }
+            if let Some(r) = repl {
+                *e = r;
+                self.bump("R3.is_some_and");
+                return;
+            }
+        }
         if self.enabled("R20") {
             // M.entry(K).or_default().push(V)  (also push_back / insert; or_insert_with(Vec::new) etc.) -> vx_entry_or_default_<m>(&mut M, K, V)
             let mut repl: Option<Expr> = None;
@@ -1243,7 +1289,8 @@ impl VisitMut for Marker {
             let mut after = Vec::new();
             for a in &self.anchors {
                 let at = norm(&a.text);
-                if !at.is_empty() && t.starts_with(&at) {
+                let hit = (!at.is_empty() && t.starts_with(&at)) || a.alts.iter().any(|x| !norm(x).is_empty() && t.starts_with(&norm(x)));
+                if hit {
                     let c = self.found.entry(a.id).or_insert(0);
                     let this = *c;
                     *c += 1;
